@@ -43,6 +43,10 @@ pub struct Case {
     /// server pause: send() and the first read must return without waiting for anything further
     #[serde(default)]
     pub bodiless: Option<u8>,
+    /// the body (made ASCII, no Content-Type: decoded as Windows-1252, i.e. unchanged) is read through `text_reader()` with
+    /// these buffer sizes
+    #[serde(default)]
+    pub via_text_reader: Option<Vec<usize>>,
 }
 
 pub const BODILESS: &[u16] = &[100, 101, 102, 103, 199, 204, 304];
@@ -127,9 +131,14 @@ one in sixteen is a head-only 1xx/204/304 response followed by the pause (send()
                 1 => Just(PauseAt::AfterFrame),
             ],
             read_sizes(),
-            (prop_oneof![4 => Just(None), 1 => (0u8..3, any::<u16>()).prop_map(Some)], prop::bool::weighted(0.2), prop_oneof![15 => Just(None), 1 => (0u8..BODILESS.len() as u8).prop_map(Some)]),
+            (
+                prop_oneof![4 => Just(None), 1 => (0u8..3, any::<u16>()).prop_map(Some)],
+                prop::bool::weighted(0.2),
+                prop_oneof![15 => Just(None), 1 => (0u8..BODILESS.len() as u8).prop_map(Some)],
+                prop_oneof![6 => Just(None), 1 => proptest::collection::vec(prop_oneof![Just(1usize), 2usize..64, Just(64usize), Just(200usize), Just(8192usize)], 1..4).prop_map(Some)],
+            ),
         )
-            .prop_map(|(payload, framing, hdr_style, seg, pause, reads, (redirect_first, via_write_to, bodiless))| Case {
+            .prop_map(|(payload, framing, hdr_style, seg, pause, reads, (redirect_first, via_write_to, bodiless, via_text_reader))| Case {
                 payload,
                 framing,
                 hdr_style,
@@ -139,6 +148,7 @@ one in sixteen is a head-only 1xx/204/304 response followed by the pause (send()
                 redirect_first,
                 via_write_to,
                 bodiless,
+                via_text_reader,
             })
             .boxed()
     }
@@ -166,7 +176,12 @@ one in sixteen is a head-only 1xx/204/304 response followed by the pause (send()
                 other => Outcome::fail("C19:bodiless:read-waited", format!("first read on a {status} response: {other:?}, reads that reached the pause: {}", wb())),
             };
         }
-        let payload = case.payload.bytes();
+        let mut payload = case.payload.bytes();
+        if case.via_text_reader.is_some() {
+            for b in payload.iter_mut() {
+                *b = b'a' + (*b % 26);
+            }
+        }
         let built = build_response(200, &[], &case.framing, case.hdr_style, &payload);
         let body_len = built.frame_end - built.head_end;
         let fname = case.framing.name();
@@ -233,6 +248,37 @@ one in sixteen is a head-only 1xx/204/304 response followed by the pause (send()
         };
         if wb() != 0 {
             return Outcome::fail("C19:send-read-past-head", "send() asked the transport for more bytes after the head was complete".to_string());
+        }
+        if let Some(sizes) = &case.via_text_reader {
+            // the decoder looks at the first three body bytes (byte order mark) before it yields anything
+            let a = if a >= 3 { a } else { 0 };
+            ctx.label("consumed-with-text_reader");
+            ctx.nontrivial = k > built.head_end && k < built.frame_end && a > 0;
+            let mut r = resp.text_reader();
+            let mut got: Vec<u8> = vec![];
+            let mut buf = vec![0u8; 8192];
+            let mut i = 0;
+            while got.len() < a {
+                let sz = sizes[i % sizes.len()].clamp(1, buf.len());
+                i += 1;
+                match r.read(&mut buf[..sz]) {
+                    Ok(n) if n >= 1 && n <= sz => got.extend_from_slice(&buf[..n]),
+                    Ok(n) => return Outcome::fail(format!("C19:{fname}:text_reader-empty-read"), format!("read returned {n} with {} of {a} entitled bytes delivered (pause at wire offset {k})", got.len())),
+                    Err(e) => {
+                        return Outcome::fail(
+                            format!("C19:{fname}:text_reader-blocked"),
+                            format!("text_reader read #{i} (buffer {sz}) failed with {e:?} after {} of {a} entitled bytes (pause at wire offset {k}, reads that reached the pause: {})", got.len(), wb()),
+                        )
+                    }
+                }
+                if wb() != 0 {
+                    return Outcome::fail(format!("C19:{fname}:text_reader-waited"), format!("a text_reader read (buffer {sz}) waited for bytes not yet sent while {} of {a} entitled bytes were still undelivered (pause at {k})", got.len()));
+                }
+            }
+            if !payload.starts_with(&got) {
+                return Outcome::fail(format!("C19:{fname}:wrong-bytes"), first_diff(&got, &payload));
+            }
+            return Outcome::Pass;
         }
         if case.via_write_to {
             let log = net.lock().unwrap().dials[0].1.clone();
